@@ -282,7 +282,7 @@ class KMatrix(ModelItem):
         initial_concentration :
             The initial concentration.
         """
-        if np.sum(initial_concentration) != 1:
+        if np.sum(initial_concentration) != 1 or initial_concentration[0] != 1:
             return False
         matrix = self.reduced(compartments)
         return not any(
